@@ -18,7 +18,7 @@ EXPLANATION = (
 OUTSIDE = [
     "messages with non-literal operands (the property excludes them); tail filters (`||`) applied to a ternary's result",
     "a `plural:` argument without any `count:` (template-author error; extraction and runtime disagree by design)",
-    "programs other than the 14 corpus templates",
+    "programs other than the 16 corpus templates",
 ]
 
 ENV = Environment()
@@ -61,6 +61,8 @@ CORPUS = [
     "{# Translators: far #}\n\n\n{{ 'A15' | t }}\n{% # Translators: near %}\n{{ 'A16' | t }}{{ 'A17' | t }}",
     "{% if x %}{% translate you: y %}Hi {{ you }}{% endtranslate %}{% endif %}\n{{ y | t }}{{ \"${'A18' | t}\" }}",
     "{% unless x %}{% translate count: n %}U{% plural %}V{% endtranslate %}{% endunless %}{% case n %}{% when 1 %}{{ 'A19' | t: plural: 'B19', count: n }}{% else %}{{ 'A20' | t }}{% endcase %}",
+    "{{ 'A23' | t if x }}\n{{ 'A24' | t: 'c24' if x else '' }}\n{% assign m = 'A25' | t: plural: 'B25', count: n if x else n %}{{ m }}\n{% echo 'A26' | gettext if x else 'z' || upcase %}",
+    "{{ 'A27' | t if x else y }}{{ y if x else 'A28' | t }}\n{{ 'A29' | pgettext: 'c29' if x else y | upcase }}{{ 'A30' | ngettext: 'B30', n if x }}",
     "{% comment %}Translators: block{% endcomment %}\n{% translate %}K{% endtranslate %}{% capture c %}{{ 'A21' | t }}{% endcapture %}{% with q: n %}{{ 'A22' | t: plural: 'B22', count: q }}{% endwith %}",
 ]
 TEMPLATES = [ENV.from_string(s) for s in CORPUS]
@@ -98,7 +100,7 @@ N = Union[int, str]
     timeout=200,
     shard={"i": list(range(len(CORPUS)))},
     covers="every (family, context, singular, plural) looked up at run time for literal operands appears in extract_from_template() with the same family and the line of the originating tag/expression; extraction does not raise (empty and comment-only templates included); translator comments attach only to a message on the comment's own or next line",
-    bounds="14 templates: t/gettext/ngettext/pgettext/npgettext filters in output, assign, echo, ternary branches, if/for/unless/case/with/capture bodies, liquid tag lines, template strings; translate/plural blocks with count and context; count n: int -2..3 | 1-digit str (a nil/boolean count means 'no count': outside); branch condition x: bool",
+    bounds="16 templates: t/gettext/ngettext/pgettext/npgettext filters in output, assign, echo, ternary branches, if/for/unless/case/with/capture bodies, liquid tag lines, template strings; translate/plural blocks with count and context; count n: int -2..3 | 1-digit str (a nil/boolean count means 'no count': outside); branch condition x: bool",
     grid=lambda: [(i, n, x) for i in range(len(CORPUS)) for n in (0, 1, 2, -1, "0", "2") for x in (False, True)],
 )
 def d_cover(i: int, n: N, x: bool) -> bool:
